@@ -257,13 +257,25 @@ type bZooAnonLeftRec struct {
 		C string           `@Ident`
 	} `@@`
 }
+type bZooSelfEmbed struct {
+	*bZooSelfEmbed
+	Name string `@Ident`
+}
+type bZooMutualA struct {
+	*bZooMutualB
+	A string `@Ident`
+}
+type bZooMutualB struct {
+	*bZooMutualA
+	B string `@Int`
+}
 type bZooEmpty struct{}
 type bZooNoTags struct{ A, B string }
 type bZooIface interface{ zoo() }
 
 func TestVerif_C19_BuildTotality(t *testing.T) {
 	res := &verifResult{Check: "Build totality", Property: "C19", Exhaustive: true,
-		Bound: "tag soup: all atom sequences of length <= 3 (thorough: <= 4) over 30 atoms {@ @@ Ident Nope \"a\" 'b' 'cd' `e` \"a\":Ident \"a\":Nope ( ) [ ] { } | ? * + ! ~ (?= (?! : = , 1 \"unterminated '}, each as one field and split over two fields, whole-tag and parser:\"...\" forms, field types string and *struct; every single-atom insertion / deletion / replacement of 14 valid tags; 39 field types (maps, channels, functions, interfaces, arrays, anonymous / recursive / left-recursive structs, Parseable with value and pointer receivers, Capture, TextUnmarshaler, lexer.Token) x 8 tags and as root types",
+		Bound: "tag soup: all atom sequences of length <= 3 (thorough: <= 4) over 30 atoms {@ @@ Ident Nope \"a\" 'b' 'cd' `e` \"a\":Ident \"a\":Nope ( ) [ ] { } | ? * + ! ~ (?= (?! : = , 1 \"unterminated '}, each as one field and split over two fields, whole-tag and parser:\"...\" forms, field types string and *struct; every single-atom insertion / deletion / replacement of 14 valid tags; 42 field types (maps, channels, functions, interfaces, arrays, anonymous / recursive / left-recursive / self-embedding structs, Parseable with value and pointer receivers, Capture, TextUnmarshaler, lexer.Token) x 8 tags and as root types",
 		Rule: "distinct (struct type, tag) inputs; non-trivial = the reference recogniser classifies the tag (valid, or one of the property's four rejection classes)"}
 	def := lexer.MustSimple([]lexer.SimpleRule{{Name: "Ident", Pattern: `[a-z]+`}, {Name: "Int", Pattern: `\d+`}, {Name: "Punct", Pattern: `[^\sa-z\d]`}, {Name: "Whitespace", Pattern: `\s+`}})
 	symbols := map[string]bool{"Ident": true, "Int": true, "Punct": true, "Whitespace": true, "EOF": true}
@@ -431,7 +443,7 @@ func TestVerif_C19_BuildTotality(t *testing.T) {
 		reflect.TypeOf(bZooParseVal{}), reflect.TypeOf(&bZooParseVal{}), reflect.TypeOf(bZooParsePtr{}), reflect.TypeOf([]*bZooParsePtr{}), reflect.TypeOf(bZooCapture{}), reflect.TypeOf(&bZooText{}),
 		reflect.TypeOf(struct {
 			C string `@Ident`
-		}{}), reflect.TypeOf(&bZooRec{}), reflect.TypeOf(&bZooLeftRec{}), reflect.TypeOf(&bZooAnonLeftRec{}), reflect.TypeOf(bZooEmpty{}), reflect.TypeOf(bZooNoTags{}),
+		}{}), reflect.TypeOf(&bZooRec{}), reflect.TypeOf(&bZooLeftRec{}), reflect.TypeOf(&bZooAnonLeftRec{}), reflect.TypeOf(bZooSelfEmbed{}), reflect.TypeOf(&bZooMutualA{}), reflect.TypeOf(bZooEmpty{}), reflect.TypeOf(bZooNoTags{}),
 		reflect.TypeOf(struct {
 			Self *bZooLeftRec `@@`
 			T    struct {
